@@ -81,7 +81,7 @@ class FullLinkControl(BytesInterface, BitsInterface):
             )
         elif self.full_link_control_opcode == FLCOs.TalkerAliasHeader:
             return descr + (
-                f"[{self.talker_alias_data_format}] [Talker Alias Data Length: {self.talker_alias_data_length}] [{self.talker_alias_data.decode('ascii')}]"
+                f"[{self.talker_alias_data_format}] [Talker Alias Data Length: {self.talker_alias_data_length}] [{self.talker_alias_data.decode('ascii', errors='replace')}]"
             )
         elif self.full_link_control_opcode in (
             FLCOs.TalkerAliasBlock1,
@@ -89,7 +89,7 @@ class FullLinkControl(BytesInterface, BitsInterface):
             FLCOs.TalkerAliasBlock3,
         ):
             return descr + (
-                f"[{self.talker_alias_data.hex()}] [utf16le: {self.talker_alias_data.decode('ascii')}]"
+                f"[{self.talker_alias_data.hex()}] [utf16le: {self.talker_alias_data.decode('ascii', errors='replace')}]"
             )
 
         raise KeyError(f"FullLinkControl.__repr__ does not support " + descr)
